@@ -251,9 +251,45 @@ CLAIMED['C17'] = dict(
          'planned in DESIGN.md.',
     technique='Coq proof (equivariance of every model function) + metamorphic differential runs (rename_state, copy_from_statechart)')
 
-NOT_YET = {'C18': 'check being built this round (snapshot model + pickle/deepcopy lock-step); not claimed yet',
-           'C19': 'check being built this round (BDD model + behave end-to-end correspondence); not claimed yet',
-           'C20': 'check being built this round (runner LTS + gated-thread replay); not claimed yet'}
+CLAIMED['C18'] = dict(
+    category='proof',
+    text='Coq theorems over theories/Snapshot.v (an interpreter as object identities + the evaluator store keyed by id(obj) + plain data): '
+         're-keying the store for the copied objects, as PythonEvaluator.__setstate__ does, leaves the owner-keyed view used by the '
+         'interpreter model unchanged, so a pickled/deep-copied interpreter denotes the SAME model interpreter and every continuation '
+         'gives the same results, state and trace (C18_snapshot_model, C18_continue); lookup by identity = lookup by owner (old_for_abs); '
+         'without the re-keying the copy loses __old__ and a concrete run diverges (C18_continue_refuted_without_rekey: the defect '
+         'switch). What pickle/deepcopy really keep is runtime behaviour, so the main tie is the correspondence run: at EVERY '
+         'macro-step boundary of generated runs (contracts reading __old__, a nested mutable context value, history, delayed events, '
+         'stopped and running clocks) the real interpreter is pickled and deep-copied; the copies\' states (store translated through the '
+         'copy\'s own objects) must equal the original\'s, the copies must continue exactly like the run without snapshots - after the '
+         'original has run on, so shared mutable state shows - and their steps are evaluated against the model.',
+    design_ref='DESIGN.md section 6 (C18)',
+    note='Trusted: Coq kernel+VM; the description of pickle/deepcopy in Snapshot.v (validated differentially); contexts hold picklable '
+         'values; no listeners attached (lambdas cannot be pickled). Partial by nature: the theorem is about the description, the '
+         'runtime behaviour is exercised, not proved.',
+    technique='Coq proof (abstraction of the identity-keyed store) + differential snapshot/continuation runs at every macro-step boundary')
+CLAIMED['C20'] = dict(
+    category='proof',
+    text='Coq theorems over a two-thread labelled transition system (theories/Runner.v: the control-flow graph of AsyncRunner._run/execute '
+         'with one atomic action per access to shared state, execute_once as sample-time / peek / pop, client calls start, queue = '
+         'bisect THEN insert, pause, unpause, stop = set, set, join), for EVERY schedule and client script: reports = executed steps in '
+         'order, each once, at most one per cycle unless execute_all (C20_report); before_run/after_run once, first and last (C20_hooks); '
+         'at most one cycle begins after pause() returned (C20_pause); after stop the runner ends within a stated bound of its own '
+         'actions, stop() returns under every fair schedule and nothing runs afterwards (C20_stop*, C20_stop_returns, C20_stop_quiet); '
+         'the loop exits and sets _stop when final (C20_final*); zero-delay events are consumed at most once, FIFO, none skipped '
+         '(C20_events); for delayed events the property is REFUTED on the code as it is (C20_events_refuted: stale bisect index), a '
+         'known finding. Tied to runner.py/default.py by replaying schedules on REAL threads gated at the model\'s action boundaries '
+         '(hook overrides, Event/Thread subclasses, a settrace line gate on the insert of _queue_event located from the source text, '
+         'fail-soft fallback), comparing trace and final state with the model evaluated by vm_compute and evaluating the property '
+         'checker on the implementation\'s history.',
+    design_ref='DESIGN.md section 6 (C20)',
+    note='Partial by nature: the atomicity grain (one action per Python-level access; list.insert/pop and Event methods atomic) is an '
+         'assumption about CPython, not a theorem; real preemption, time.sleep, __del__ and more than one client are not modelled; the '
+         'interpreter is abstracted to its external queue, time, initialised and final. Known finding C20-stale-bisect-index is '
+         'reported as KNOWN-FINDING only when the implementation agrees with the model and the atomic-insert switch removes the failure.',
+    technique='Coq proof (program-counter invariants, induction over schedules) + gated replay of schedules on real threads')
+
+NOT_YET = {'C19': 'check being built this round (BDD model + behave end-to-end correspondence); not claimed yet'}
 
 ALL = ['C%02d' % i for i in range(1, 21)]
 
